@@ -242,29 +242,45 @@ class ElementList(MutableSequence):
         :type child: :class:`Element <hl7apy.core.Element>`
         :param child: an instance of an :class:`Element <hl7apy.core.Element>` subclass
         """
+        element = self.element
+        if any(c is child for c in self.list):
+            # one of the element's own children: it moves to the given position
+            size = len(self.list)
+            target = min(index, size) if index >= 0 else max(size + index, 0)
+            if [c is child for c in self.list].index(True) < target:
+                target -= 1
+            self.remove(child)
+            index = target
+        elif isinstance(element, SupportComplexDataType) and element.name and \
+                is_base_datatype(element.datatype, element.version) and len(self.list) >= 1:
+            # as for add(): a base datatype field or component has one child only
+            raise MaxChildLimitReached(element, child, 1)
         previous_parent = child.parent
-        if previous_parent != self.element and self.element._is_valid_child(child):
+        if previous_parent != element and element._is_valid_child(child):
             # attach the child to the element without going through add(), which would append it at the end
             child.traversal_parent = None
-            child._parent = self.element
+            child._parent = element
         try:
             allowed = self._can_add_child(child)
         except Exception:
             child._parent = previous_parent  # the child has been refused
             raise
         if allowed:
-            if previous_parent is not None and previous_parent is not self.element and \
+            if previous_parent is not None and previous_parent is not element and \
                     any(c is child for c in previous_parent.children):
                 # an element is the child of one parent only: it leaves the previous one
                 previous_parent.children.remove(child)
-            try:
-                if by_name_index == -1:
-                    self.indexes[child.name].append(child)
-                else:
-                    self.indexes[child.name].insert(by_name_index, child)
-            except KeyError:
-                self.indexes[child.name] = [child]
+            if by_name_index == -1:
+                # the position among the children of the same name follows the position in the list
+                size = len(self.list)
+                position = min(index, size) if index >= 0 else max(size + index, 0)
+                by_name_index = len([c for c in self.list[:position] if c.name == child.name])
+            self.indexes.setdefault(child.name, []).insert(by_name_index, child)
             self.list.insert(index, child)
+            if isinstance(element, Segment) and element.allow_infinite_children and child.name and \
+                    _valid_child_name(child.name, element.name):
+                # a segment taking fields beyond its table keeps track of the last position in use
+                element._last_child_index = max(element._last_child_index, int(child.name.rsplit('_', 1)[1]))
 
     def append(self, child):
         """
